@@ -23,6 +23,7 @@ import EPV.Spec.Blake
 import EPV.Lemmas.Blake
 import EPV.Lemmas.BlakeFields
 import EPV.Tactics
+import EPV.Lemmas.Bridge.BlakeAtoms
 
 set_option linter.all false
 
@@ -105,42 +106,19 @@ theorem density_posn_eq (p : BlakeFields.P) (r t : ℝ) (h : BlakeFields.outcome
 /-- leaf 1: the generated r-derivative of the displacement formula equals the separately coded radial strain -/
 theorem L1_strain_rr_eq_dr (p : BlakeFields.P) (r t : ℝ) (hr : r ≠ 0) (hc : cL p ≠ 0) (hn : nn p ≠ 0)
     (hb : bb p ≠ 0) : BlakeFields.L1.displacement_dr p r t = BlakeFields.L1.strain_rr p r t := by
-  unfold bb nn cL at *
   simp only [epv_deriv, epv_leaf]
-  generalize hcl : (p.long_mod / p.ref_density) ^ ((1 : ℝ) / 2) = cl at *
-  generalize hn' : (1 - 2 * p.poisson_ratio) / (1 - p.poisson_ratio) * (cl / p.cavity_radius) = n at *
-  generalize hb' : ((1 - 2 * p.poisson_ratio) / (1 - p.poisson_ratio) ^ (2 : ℝ) * (cl / p.cavity_radius) ^ (2 : ℝ)) ^ ((1 : ℝ) / 2) = b at *
-  generalize p.cavity_radius * p.pressure_scale / (p.ref_density * (b ^ 2 + n ^ 2)) = k1
-  generalize p.cavity_radius = a
-  have hX : Real.exp (n * (t + a / cl)) = (Real.exp (-n * (t + a / cl)))⁻¹ := by
-    rw [← Real.exp_neg]; congr 1; ring
-  have hZ : Real.exp (n / cl * r) = Real.exp (-n * (t - (r - a) / cl)) * (Real.exp (-n * (t + a / cl)))⁻¹ := by
-    rw [← Real.exp_neg, ← Real.exp_add]; congr 1; ring
-  rw [hX, hZ]
-  have hY : Real.exp (-n * (t + a / cl)) ≠ 0 := Real.exp_ne_zero _
-  generalize Real.exp (-n * (t + a / cl)) = Y at *
-  generalize Real.exp (-n * (t - (r - a) / cl)) = W
-  generalize Real.cos (b * (t - (r - a) / cl)) = C
-  generalize Real.sin (b * (t - (r - a) / cl)) = S
-  field_simp
-  ring
+  -- c_L, b, the Poisson fraction, the exponentials (split into exponentials of canonical monomials), sin, cos and
+  -- k1's denominator become atoms selected by what they are, not by how the Python writes them; the rest is a
+  -- rational identity (EPV/Lemmas/Bridge/BlakeAtoms.lean)
+  epv_deton_blake_identity hc hn hb
 
 /-- leaf 1: the displacement formula satisfies the spherical wave equation with speed² = (cL p)² -/
 theorem L1_wave (p : BlakeFields.P) (r t : ℝ) (hr : r ≠ 0) (hc : cL p ≠ 0) (hn : nn p ≠ 0) (hb : bb p ≠ 0) :
     BlakeFields.L1.displacement_dt_dt p r t = cL p ^ 2 *
       (BlakeFields.L1.displacement_dr_dr p r t + 2 / r * BlakeFields.L1.displacement_dr p r t
         - 2 * BlakeFields.L1.displacement p r t / r ^ 2) := by
-  unfold bb nn cL at *
   simp only [epv_deriv, epv_leaf]
-  generalize hcl : (p.long_mod / p.ref_density) ^ ((1 : ℝ) / 2) = cl at *
-  generalize hn' : (1 - 2 * p.poisson_ratio) / (1 - p.poisson_ratio) * (cl / p.cavity_radius) = n at *
-  generalize hb' : ((1 - 2 * p.poisson_ratio) / (1 - p.poisson_ratio) ^ (2 : ℝ) * (cl / p.cavity_radius) ^ (2 : ℝ)) ^ ((1 : ℝ) / 2) = b at *
-  generalize p.cavity_radius * p.pressure_scale / (p.ref_density * (b ^ 2 + n ^ 2)) = k1
-  generalize Real.exp (-n * (t - (r - p.cavity_radius) / cl)) = W
-  generalize Real.cos (b * (t - (r - p.cavity_radius) / cl)) = C
-  generalize Real.sin (b * (t - (r - p.cavity_radius) / cl)) = S
-  field_simp
-  ring
+  epv_deton_blake_identity hc hn hb
 
 /-- the open set of radii behind the front at time t -/
 def behind (p : BlakeFields.P) (t : ℝ) : Set ℝ := {x | p.cavity_radius < x ∧ 0 < tred p x t}
@@ -281,46 +259,42 @@ theorem wall_stress {p : BlakeFields.P} (h : Admissible p) {t : ℝ} (ht : 0 < t
   have hτ : 0 < tred p p.cavity_radius t := by unfold tred; simpa using ht
   rw [(disturbed_leaf ha le_rfl hτ).2.2]
   obtain ⟨E, K, m⟩ := h.material
-  have hc := cL_pos h; have hn := nn_pos h; have hb := bb_pos h
+  have hc := (cL_pos h).ne'; have hn := (nn_pos h).ne'; have hb := (bb_pos h).ne'
   have r1 := bb_nn_rel h; have r2 := nn_rel h; have r3 := cL_sq h
   have hρ := h.density
   have hM := m.long
   have hG := m.shear_pos
-  unfold bb nn cL at *
   simp only [epv_leaf]
-  simp only [sub_self, zero_div, sub_zero]
-  generalize hcl : (p.long_mod / p.ref_density) ^ ((1 : ℝ) / 2) = cl at *
-  generalize hn' : (1 - 2 * p.poisson_ratio) / (1 - p.poisson_ratio) * (cl / p.cavity_radius) = n at *
-  generalize hb' : ((1 - 2 * p.poisson_ratio) / (1 - p.poisson_ratio) ^ (2 : ℝ) * (cl / p.cavity_radius) ^ (2 : ℝ)) ^ ((1 : ℝ) / 2) = b at *
+  -- atoms by what they are (EPV/Lemmas/Bridge/BlakeAtoms.lean): c_L, b, the Poisson fraction q
+  epv_deton_blake_atoms hc hn hb
+  -- the material relations in these atoms; n = q c_L / a becomes a variable of its own
+  unfold nn at r1 r2
+  simp only [← eb, ← ecl, ← eq] at r1 r2 r3
+  clear ecl eb eq hc hn hb
+  obtain ⟨n, rfl⟩ : ∃ n, q = n * p.cavity_radius / cl := ⟨q * cl / p.cavity_radius, by field_simp⟩
+  have hn0 : n ≠ 0 := by intro h0; apply hq; rw [h0]; simp
+  -- canonical arguments; exponentials of monomials, sin, cos as atoms
+  epv_deton_blake_canon
   generalize p.cavity_radius = a at *
   generalize p.ref_density = ρ at *
   generalize p.pressure_scale = P at *
   generalize p.lame_mod = lam at *
   generalize p.shear_mod = G at *
   generalize p.long_mod = M at *
-  have hX : Real.exp (n * (t + a / cl)) = (Real.exp (-n * (t + a / cl)))⁻¹ := by
-    rw [← Real.exp_neg]; congr 1; ring
-  have hZ : Real.exp (n / cl * a) = Real.exp (-n * t) * (Real.exp (-n * (t + a / cl)))⁻¹ := by
-    rw [← Real.exp_neg, ← Real.exp_add]; congr 1; field_simp; ring
-  rw [hX, hZ]
-  have hY : Real.exp (-n * (t + a / cl)) ≠ 0 := Real.exp_ne_zero _
-  generalize Real.exp (-n * (t + a / cl)) = Y at *
-  generalize Real.exp (-n * t) = W
-  generalize Real.cos (b * t) = C
-  generalize Real.sin (b * t) = S
   -- eliminate M, λ, G and a through the material relations
   have hρM : M = ρ * cl ^ 2 := by rw [r3]; field_simp
   subst hρM
   obtain rfl : lam = ρ * cl ^ 2 - 2 * G := by linarith
   have hG' : G = n * ρ * cl * a / 2 := by
-    have : n * (ρ * cl ^ 2) * a = 2 * G * cl := r2
-    field_simp
-    nlinarith [this]
+    field_simp at r2
+    linarith
   subst hG'
-  have hA : b ^ 2 + n ^ 2 = 2 * n * cl / a := by
-    rw [eq_div_iff ha.ne']; exact r1
-  rw [hA]
-  field_simp
+  have hbn : 0 < b ^ 2 + n ^ 2 := by positivity
+  have hA : a = 2 * n * cl / (b ^ 2 + n ^ 2) := by
+    field_simp at r1 ⊢
+    linarith
+  subst hA
+  epv_deton_fs
   ring
 
 /-- **causality**: for t ≤ (r - a)/c_L (the front has not arrived, or is just arriving) the returned
